@@ -147,7 +147,16 @@ pub fn run(sc: &Value) -> Vec<String> {
             if gb(sc, "sess") {
                 s.default_charset(Some(sessdef));
             }
-            let mut b = s.get("http://h.test/t");
+            // (the session's settings reach a request whichever constructor makes it)
+            let u = "http://h.test/t";
+            let mut b = match gs(sc, "id").bytes().fold(0usize, |a, x| a.wrapping_mul(31).wrapping_add(x as usize)) % 7 {
+                0 | 1 => s.get(u),
+                2 => s.post(u),
+                3 => s.put(u),
+                4 => s.delete(u),
+                5 => s.patch(u),
+                _ => s.options(u),
+            };
             match gs(sc, "req") {
                 "some" => b = b.default_charset(Some(reqdef)),
                 "none" => b = b.default_charset(None),
@@ -165,6 +174,10 @@ pub fn run(sc: &Value) -> Vec<String> {
                     loop {
                         let mut buf = vec![0u8; bufs[i % bufs.len()].max(1)];
                         i += 1;
+                        if i % 3 == 0 {
+                            // an empty read in between changes nothing
+                            let _ = tr.read(&mut []);
+                        }
                         match tr.read(&mut buf) {
                             Ok(0) => break,
                             Ok(k) => out.extend_from_slice(&buf[..k]),
